@@ -221,6 +221,16 @@ def build(ctx):
                     if ctx.quick:
                         plc = {"top", "cb:map", "eval"} if wn != "bare" else plc
                     add(cn + "/" + un, use, plc, wn, w, D, None)
+    # the same after an exposed host function re-entered eval() on this context
+    for cn, lit, subj in REGEX_CORES[:6]:
+        for un, use in regex_uses(lit, subj):
+            for pre in ("hostEval('1');", "hostEval('var hz = 0; for (var hi = 0; hi < 5; hi++) { hz += hi; } hz');", "[1].forEach(function () { hostEval('2'); });", "try { hostEval('throw 1'); } catch (he) { }"):
+                if ctx.quick and (len(un) + len(pre)) % 3:
+                    continue
+                cases.append({"id": h(["hosteval", cn, un, pre]), "core": cn + "/" + un, "place": "after-host-reentry", "wrap": "bare", "D": Ds[1], "ml": None, "src": pre + " " + use + "\nlog('END');"})
+    for cn, core in LOOP_CORES[:8]:
+        for pre in ("hostEval('1');", "try { hostEval('throw 1'); } catch (he) { }"):
+            cases.append({"id": h(["hosteval-loop", cn, pre]), "core": cn, "place": "after-host-reentry", "wrap": "bare", "D": Ds[1], "ml": None, "src": pre + " " + core + "\nlog('END');"})
     # loops whose body works on receivers of many sizes (any per-call step weighting, batching or poll cadence that depends on operand
     # size must still let the clock be polled): 30 lengths x string / array receivers x a few methods
     for L in range(100, 3100, 100):
@@ -305,7 +315,11 @@ def w_case(case, opts):
         else:
             o = {"tl": D, "ml": case.get("ml"), "max_steps": D + 400 * B, "_vm_mons": [mon], "_rx_mons": [rmon],
                  "stamp": True}
-            rec = E.run_js(case["src"], o)
+            ctx = E.new_context(D, case.get("ml"))
+            # an exposed host function that itself evaluates something on the same context (embedders do: configuration lookups, lazy
+            # module loading): the outer evaluation goes on afterwards and is still bounded
+            ctx.set("hostEval", lambda src_="1": ctx.eval(src_))
+            rec = E.run_js(case["src"], o, ctx=ctx)
     finally:
         E.mvm.TimeLimitError = saved
     rec.update(st)
